@@ -40,6 +40,11 @@ class MaterializeReshapeShape(RewriteRuleClassBase):
         dims = list(output.shape)
         sym_count = sum(1 for d in dims if not isinstance(d, int))
 
+        if sym_count == 1 and any(isinstance(d, int) and d == 0 for d in dims):
+            # [..., 0, ..., -1, ...] cannot be expressed: with allowzero=1 a shape may not contain
+            # both 0 and -1 (and the inferred dimension would be 0/0).
+            return check_result.fail("Output shape has a zero dim next to a symbolic dim.")
+
         if sym_count <= 1:
             self._new_dims = [-1 if not isinstance(d, int) else int(d) for d in dims]
         else:
